@@ -662,3 +662,68 @@ pub fn perturb<S: Setup>(
         (p, q, format!("private[{}]", i - publics.len()))
     }
 }
+
+
+/// Directed programs: every way a private input `p` can make its FIRST appearance in an ALU row —
+/// each operand position of add / sub / mul / div / mul_add (alone or repeated) and `assert_bool`,
+/// with the row's result optionally connected back to `p` (the "aliased by out" shapes) and 0..2
+/// further reads of `p` — as a 4–8 statement program with a satisfying assignment found by search
+/// over small values. Returns (name, program, publics, privates).
+pub fn first_use_programs<S: Setup>() -> Vec<(String, Prog, Vec<S::E>, Vec<S::E>)> {
+    use crate::prog::{Stmt, eval};
+    // vars: 0 = public x, 1 = public y, 2 = private p; the form defines var 3 (if any)
+    let (x, y, p) = (0usize, 1usize, 2usize);
+    let forms: Vec<(&str, Stmt)> = vec![
+        ("add(p,x)", Stmt::Add(p, x)),
+        ("add(x,p)", Stmt::Add(x, p)),
+        ("add(p,p)", Stmt::Add(p, p)),
+        ("sub(p,x)", Stmt::Sub(p, x)),
+        ("sub(x,p)", Stmt::Sub(x, p)),
+        ("mul(p,x)", Stmt::Mul(p, x)),
+        ("mul(x,p)", Stmt::Mul(x, p)),
+        ("mul(p,p)", Stmt::Mul(p, p)),
+        ("div(p,x)", Stmt::Div(p, x)),
+        ("div(x,p)", Stmt::Div(x, p)),
+        ("mul_add(p,x,y)", Stmt::MulAdd(p, x, y)),
+        ("mul_add(x,p,y)", Stmt::MulAdd(x, p, y)),
+        ("mul_add(x,y,p)", Stmt::MulAdd(x, y, p)),
+        ("mul_add(p,p,x)", Stmt::MulAdd(p, p, x)),
+        ("mul_add(p,x,p)", Stmt::MulAdd(p, x, p)),
+        ("mul_add(x,p,p)", Stmt::MulAdd(x, p, p)),
+        ("mul_add(p,p,p)", Stmt::MulAdd(p, p, p)),
+        ("assert_bool(p)", Stmt::AssertBool(p)),
+    ];
+    let vals = [0u64, 1, 2, 3, 4, 9];
+    let mut out = vec![];
+    for (name, body) in forms {
+        let defines = !matches!(body, Stmt::AssertBool(_));
+        for alias in [false, true] {
+            if alias && !defines {
+                continue; // assert_bool(p) already has a == c == out == p after optimisation
+            }
+            for reads in 0..3usize {
+                let mut stmts = vec![Stmt::Public, Stmt::Public, Stmt::Private, body.clone()];
+                if alias {
+                    stmts.push(Stmt::Connect(3, 2));
+                }
+                for r in 0..reads {
+                    stmts.push(if r == 0 { Stmt::Mul(2, 1) } else { Stmt::Add(2, 0) });
+                }
+                let prog = Prog { stmts, recompose_npo: false };
+                'search: for &pv in &vals {
+                    for &xv in &vals {
+                        for &yv in &vals {
+                            let (pu, pr) = (vec![S::el(&[xv]), S::el(&[yv])], vec![S::el(&[pv])]);
+                            let ev = eval::<S>(&prog, &pu, &pr);
+                            if ev.all_hold() && !ev.div_zero {
+                                out.push((format!("{name}:alias={alias}:reads={reads}"), prog.clone(), pu, pr));
+                                break 'search;
+                            }
+                        }
+                    }
+                }
+            }
+        }
+    }
+    out
+}
